@@ -1817,9 +1817,18 @@ class TrajectoryStore:
                 return var[index]
             case (True, False, False) | (True, False, True):
                 # SpeciesValues[float] | SpeciesValues[np.ndarray]
-                return SpeciesValues(
-                    {sp: var[index, si] for si, sp in enumerate(species)}
-                )
+                #
+                # Only species that were actually written for this field are
+                # returned: a slot that was never written reads as the fill
+                # value (or as an empty variable-length array).
+                fill = var.get_fill_value()
+                values = {}
+                for si, sp in enumerate(species):
+                    v = var[index, si]
+                    if np.size(v) == 0 or np.all(v == fill):
+                        continue
+                    values[sp] = v
+                return SpeciesValues(values)
             case (False, True, False):
                 # ThrustModeValues
                 return ThrustModeValues(
@@ -1827,14 +1836,17 @@ class TrajectoryStore:
                 )
             case (True, True, False):
                 # SpeciesValues[ThrustModeValues]
-                return SpeciesValues[ThrustModeValues](
-                    {
-                        sp: ThrustModeValues(
-                            {tm: var[index, si, ti] for ti, tm in enumerate(ThrustMode)}
-                        )
-                        for si, sp in enumerate(species)
-                    }
-                )
+                #
+                # As above, species whose slots were never written are not
+                # part of the value.
+                fill = var.get_fill_value()
+                tm_values = {}
+                for si, sp in enumerate(species):
+                    modes = {tm: var[index, si, ti] for ti, tm in enumerate(ThrustMode)}
+                    if all(v == fill for v in modes.values()):
+                        continue
+                    tm_values[sp] = ThrustModeValues(modes)
+                return SpeciesValues[ThrustModeValues](tm_values)
             case _:
                 raise ValueError(f'Invalid combination of dimensions for field {name}')
 
